@@ -8,7 +8,7 @@
    every run. *)
 From Coq Require Import QArith.
 From GJ Require Import Base Kernel KernelSpec KernelProofs IntersectsProofs IntersectsQ Series SeriesSpec
-  Ring RingSpec PipProofs PairProofs Jordan JordanQ JordanRing.
+  Ring RingSpec PipProofs PairProofs Jordan JordanQ JordanRing JordanRect.
 Open Scope Z_scope.
 
 (* segments: true exactly when the closed segments share a point; symmetric *)
@@ -130,6 +130,20 @@ Theorem C02_polygon_without_holes_line : forall e qs,
   exists sg, In sg (path_segs qs) /\ shares_point e (fst sg) (snd sg).
 Proof. exact poly_intersects_line_noholes. Qed.
 
+(* a Rect operand: Rect.IntersectsLine / Line.IntersectsRect and Poly.IntersectsRect /
+   Rect.IntersectsPoly (polygon without holes): true exactly when the closed box and the other
+   closed set share a rational point *)
+Theorem C02_rect_line_pointset : forall q qs, rect_wf q ->
+  (rect_intersects_line q (Lr qs) = true <->
+   (2 <= length qs)%nat /\
+   exists sg k P, In sg (path_segs qs) /\ 0 < k /\ on_seg (sc k (fst sg), sc k (snd sg)) P /\ in_rectb (scr k q) P = true).
+Proof. exact rect_intersects_line_pointset. Qed.
+Theorem C02_polygon_without_holes_rect : forall e q, rect_wf q ->
+  (poly_intersects_rect (Pg e []) q = true <->
+   (3 <= length e)%nat /\
+   exists k P, 0 < k /\ in_ringb (edges_at k e) P = true /\ in_rectb (scr k q) P = true).
+Proof. exact poly_intersects_rect_noholes. Qed.
+
 (* non-vacuity of the ring x ring statement: a small square nested in a big one (no edges meet;
    either operand order), two overlapping squares, two disjoint squares *)
 Example C02_ring_ring_examples :
@@ -175,6 +189,8 @@ Print Assumptions C02_ring_ring_symmetric.
 Print Assumptions C02_polygons_without_holes.
 Print Assumptions C02_polygons_without_holes_symmetric.
 Print Assumptions C02_polygon_without_holes_line.
+Print Assumptions C02_rect_line_pointset.
+Print Assumptions C02_polygon_without_holes_rect.
 Print Assumptions C02_rect_rect.
 Print Assumptions C02_line_line.
 Print Assumptions C02_line_line_symmetric.
